@@ -29,7 +29,7 @@ type Region struct {
 }
 
 // MemNames are the width-partitioned heap arrays (address -> value).
-var MemNames = []string{"M8", "M16", "M32", "M64", "MF32", "MF64"}
+var MemNames = []string{"M8", "M16", "M32", "M64"}
 
 func memSort(name string) Sort {
 	idx := BV(PtrW, false)
@@ -170,7 +170,7 @@ func (e *Engine) memFor(t types.Type) (string, Sort) {
 	case KBV, KInt:
 		return fmt.Sprintf("M%d", s.W), s
 	case KFP:
-		return fmt.Sprintf("MF%d", s.W), s
+		return fmt.Sprintf("M%d", s.W), s
 	}
 	panic("memFor")
 }
